@@ -135,28 +135,45 @@ func (c *Ctx) err1() {
 			continue
 		}
 		os := ef.returnOrigins(fn)
-		seen := map[string]bool{}
+		// one obligation per producing expression; every alternative that
+		// expression can carry must be of a documented class
+		var keys []string
+		byKey := map[string][]origin{}
 		for _, o := range os {
 			what := o.What
 			if i := strings.Index(what, " sent at "); i >= 0 {
 				what = what[:i] + " (via callback)"
 			}
 			key := "ERR-1|" + t.name + "|" + what
-			if seen[key] {
-				continue
+			if _, ok := byKey[key]; !ok {
+				keys = append(keys, key)
 			}
-			seen[key] = true
+			byKey[key] = append(byKey[key], o)
+		}
+		for _, key := range keys {
 			n++
-			ok := false
-			for cl := range o.Classes {
-				if t.allowed[cl] {
-					ok = true
+			var bad *origin
+			all := map[string]bool{}
+			alts := map[string]bool{}
+			for i := range byKey[key] {
+				o := &byKey[key][i]
+				alts[classList(o.Classes)] = true
+				ok := false
+				for cl := range o.Classes {
+					all[cl] = true
+					if t.allowed[cl] {
+						ok = true
+					}
+				}
+				if !ok && bad == nil {
+					bad = o
 				}
 			}
-			if ok {
-				c.S.OK("ERR-1", key, o.Site, t.name, "classes {"+classList(o.Classes)+"} ∩ documented ≠ ∅", true)
+			o := byKey[key][0]
+			if bad == nil {
+				c.S.OK("ERR-1", key, o.Site, t.name, fmt.Sprintf("each of its %d alternative(s) has a documented class; classes seen {%s}", len(alts), classList(all)), true)
 			} else {
-				c.S.Bad("ERR-1", key, o.Site, t.name, fmt.Sprintf("an error with classes {%s} can be returned; the documentation (%s) lists none of them", classList(o.Classes), t.doc), nil)
+				c.S.Bad("ERR-1", key, bad.Site, t.name, fmt.Sprintf("an error with classes {%s} can be returned; the documentation (%s) lists none of them", classList(bad.Classes), t.doc), nil)
 			}
 		}
 	}
